@@ -245,9 +245,13 @@ Proof. vm_compute. repeat split; reflexivity. Qed.
    an accepted verdict has code 0.  It implies [case_ok cs] for the decoded case cs:
      kind 0  stats_ok: stats.Mean / Sample.Mean within tol_mean (weighted: tol_wmean) of mean_def xs = sum/n
              (weighted: wmean_def = sum(w x)/sum(w) when some weight is non-zero, NaN when none is); Variance within
-             tol_var of var_def xs = sum (x - mean)^2/(n-1) (one value: 0); StdDev s through its square:
+             tol_var of var_def xs = sum (x - mean)^2/(n-1) (one value: 0) — or +Inf when the exact M2 = var (n-1)
+             exceeds maxf = MaxFloat64 = 2^1024 - 2^971 (var_ok / std_ok: Welford's sum of non-negative terms
+             overflows) —; StdDev s through its square:
              0 <= s and |s^2 - var| <= tol_std = tol_var + 8 ulp var; Sum within tol_sum of Qsum xs (weighted: of
-             wsum_xw = sum(w x)); Weight = n exactly (weighted: within tol_sum ws of Qsum ws); Bounds = exactly
+             wsum_xw = sum(w x)) — or +-Inf of the sign of the FIRST exact prefix sum whose magnitude exceeds maxf
+             (sum_ok / first_overflow: the accumulator adds from the left and stays infinite); the Mean has no such
+             branch: it must be finite and within tolerance; Weight = n exactly (weighted: within tol_sum ws of Qsum ws); Bounds = exactly
              (least, greatest) element (is_min, is_max) of xs — weighted: of the values carrying a non-zero weight
              ([used]) — provided the Sorted flag is only set on ascending data; NaN for the empty sample; weighted
              Variance / StdDev panic; nothing was modified.  GeoMean: NaN exactly for the empty sample or a value <= 0,
